@@ -364,8 +364,10 @@ def rule_arg_capture(ctx: Ctx, repo: Repo) -> None:
     fname = fi.positional_params()[1]
     named = ("p", "a", "k")
     variadic = ("args", "kwargs")
-    for missing in (None, "k"):
-        items = tuple((K(nm), S("val:" + nm)) for nm in code.co_varnames if nm != missing)
+    for missing, extras in ((None, False), ("k", False), (None, True)):
+        # the variadic collectors hold what they hold in a real frame: a tuple / a dict (with extra arguments in the last scenario)
+        coll = {"args": K((S("val:x1"), S("val:x2")) if extras else ()), "kwargs": R("dict", items=((K("kw1"), S("val:kw1")),) if extras else ())}
+        items = tuple((K(nm), coll.get(nm, S("val:" + nm))) for nm in code.co_varnames if nm != missing)
         sc = TracerScenario(repo, "handle_call", {"sample_rate": K(None)}, trace_in_table=K(None),
                             func_value=S("func"), cache_hit=False)
         outs = sc.run({fname: frame_value(p, f_locals=R("dict", items=items))})
